@@ -384,6 +384,12 @@ def r5_transforms(ctx: Ctx, leg: Decider) -> None:
                 ok = True
     ctx.check(ok, 'C01.R5', at, 'sequential', 'each transform is evaluated against the current state of the transaction',
               'evaluation context is not rebuilt inside the transform loop: later transforms do not see earlier ones')
+    # a transform that cannot be evaluated is skipped on its own: the loop goes on with the next one
+    for lp in loops:
+        exits = [n for n in ast.walk(lp) if isinstance(n, (ast.Break, ast.Return)) and [a for a in ancestors(n) if isinstance(a, (ast.For, ast.While))][0] is lp]
+        ctx.check(not exits, 'C01.R5', at, 'every-transform', 'every transform of the file is attempted (no break / return inside the loop)',
+                  f'`{src(exits[0]) if exits else ""}` inside the transform loop: after one inapplicable transform the remaining ones are not applied, so rules match a partly transformed transaction',
+                  exits[0] if exits else None)
 
 
 # --------------------------------------------------------------------------- R6
